@@ -125,6 +125,54 @@ def mcast_mac4(ip4addr):
     return bytes([0x01, 0x00, 0x5E, ip4addr[1] & 0x7F, ip4addr[2], ip4addr[3]])
 
 
+def rnd_ip4_opts(r):
+    """A well-formed IPv4 option area (multiple of 4 bytes, at most 40): options never influence an answer."""
+    k = r.randrange(7)
+    if k == 0:
+        o = b"\x94\x04" + bytes([r.getrandbits(8), r.getrandbits(8)])                    # router alert
+    elif k == 1:
+        o = b"\x01" * r.randrange(1, 8) + b"\x00"                                       # NOPs, end of list
+    elif k == 2:
+        n = r.randrange(1, 9)
+        o = bytes([7, 3 + 4 * n, 4]) + bytes(4 * n)                                      # record route
+    elif k == 3:
+        n = r.randrange(1, 9)
+        o = bytes([0x44, 4 + 4 * n, 5, r.choice([0, 1, 3])]) + bytes(4 * n)              # timestamp
+    elif k == 4:
+        o = bytes([0x82, 11]) + bytes(r.getrandbits(8) for _ in range(9))                # security
+    elif k == 5:
+        l = r.randrange(2, 39)
+        o = bytes([r.choice([0x19, 0x5e, 0x9e, 0xde, 0x88]), l]) + bytes(r.getrandbits(8) for _ in range(l - 2))
+    else:
+        o = b"\x01\x01\x01\x00"
+    return (o + bytes(-len(o) % 4))[:40]
+
+
+def rnd_tcp_opts(r):
+    """A well-formed TCP option area (multiple of 4 bytes, at most 40): options never influence an answer."""
+    o = b""
+    for _ in range(r.randrange(1, 4)):
+        k = r.randrange(7)
+        if k == 0:
+            o += b"\x02\x04" + bytes([r.getrandbits(8), r.getrandbits(8)])               # MSS
+        elif k == 1:
+            o += b"\x01\x01\x08\x0a" + bytes(r.getrandbits(8) for _ in range(8))        # NOP NOP timestamp
+        elif k == 2:
+            o += b"\x04\x02\x01\x01"                                                   # SACK permitted
+        elif k == 3:
+            o += b"\x01\x03\x03" + bytes([r.randrange(15)])                             # window scale
+        elif k == 4:
+            o += b"\x01\x01\x05\x0a" + bytes(r.getrandbits(8) for _ in range(8))        # SACK block
+        elif k == 5:
+            l = r.randrange(2, 13)
+            o += bytes([r.choice([0x1c, 0x1e, 0x22, 0xfd]), l]) + bytes(r.getrandbits(8) for _ in range(l - 2))
+        else:
+            o += b"\x01" * r.randrange(1, 4) + b"\x00"
+            break
+    o = o[:40]
+    return o + bytes(-len(o) % 4) if len(o) % 4 else o
+
+
 class Endp:
     """A (client, server) addressing context used to wrap L4 payloads into frames."""
 
@@ -143,8 +191,9 @@ class Endp:
                                                              fl=r.getrandbits(20)))
             return eth(self.smac, self.cmac, ET_IP6, ip6(self.cip, self.sip, proto, l4, hlim=self.ttl))
         if r is not None and r.random() < 0.5:
+            o = rnd_ip4_opts(r) if r.random() < 0.3 else b""
             return eth(self.smac, self.cmac, ET_IP4, ip4(self.cip, self.sip, proto, l4, ttl=r.choice([1, 2, 64, 128, 255]), ident=r.getrandbits(16),
-                                                         frag=r.choice([0, 0x4000]), tos=r.getrandbits(8)))
+                                                         frag=r.choice([0, 0x4000]), tos=r.getrandbits(8), opts=o, ihl=5 + len(o) // 4))
         return eth(self.smac, self.cmac, ET_IP4, ip4(self.cip, self.sip, proto, l4, ttl=self.ttl))
 
     def udp(self, sp, dp, pl):
@@ -156,6 +205,9 @@ class Endp:
             kw["win"] = r.choice([0, 1, 1024, 29200, 65535, r.getrandbits(16)])
             if not flags & URG:
                 kw.setdefault("urg", r.choice([0, 0, r.getrandbits(16)]))
+        if r is not None and "opts" not in kw and "off" not in kw and r.random() < 0.15:
+            kw["opts"] = rnd_tcp_opts(r)
+            kw["off"] = 5 + len(kw["opts"]) // 4
         return self.l3(P_TCP, tcp(self.cip, self.sip, sp, dp, seq, ack, flags, pl, **kw))
 
     def echo(self, ident, seqn, data, code=0, typ=None):
